@@ -1,0 +1,84 @@
+//go:build verif
+
+// Contracts for package peermanager (property C17). Comment-only: read by /verif/bin/gsv, never
+// compiled into the package.
+
+package peermanager
+
+//@ -- process life cycle (ghost): created for a peer, started, then either shut down by the manager or self-terminated
+//@ ghost liveProc set[ref]           -- started and not yet stopped
+//@ ghost procPeer map[ref]peer.ID    -- the peer a process was created for
+//@ ghost procInst map[ref]ref        -- the table instance a process was created with (its shutdown callback is bound to it)
+//@ ghost cbCaller ref                -- the (terminated) process that is invoking the shutdown callback
+
+//@ func PeerManager$createPeerProcess
+//@   assumed
+//@   params ctx, p, onShutdown
+//@   modifies alloc, procPeer
+//@   ensures result != nil && !liveProc[result] && procPeer == upd(old(procPeer), result, p)
+//@   -- a newly created process is new: no table instance refers to it yet
+//@   ensures forall i *peerProcessInstance :: i.process != result
+//@ func PeerProcess.Startup
+//@   assumed
+//@   modifies nothing
+//@   ghost liveProc := add(old(liveProc), self)
+//@ func PeerProcess.Shutdown
+//@   assumed
+//@   modifies nothing
+//@   ghost liveProc := del(old(liveProc), self)
+
+//@ -- C17 monitor invariant: every live process is the table entry of the peer it was created for (so: at most one
+//@ -- live process per peer, and none for a peer without a table entry), and it sits in the instance it was created with
+//@ pred invPM(pm *PeerManager) := pm.peerProcesses != nil && pm.createPeerProcess != nil
+//@    && (forall p peer.ID :: p in pm.peerProcesses ==> pm.peerProcesses[p] != nil && isalloc(pm.peerProcesses[p]))
+//@    && (forall q ref :: liveProc[q] ==> implements(q, "PeerProcess"))
+//@    && (forall q ref :: liveProc[q] ==> procPeer[q] in pm.peerProcesses && pm.peerProcesses[procPeer[q]].process == q
+//@                                        && pm.peerProcesses[procPeer[q]] == procInst[q])
+//@    && (forall p1 peer.ID, p2 peer.ID :: p1 in pm.peerProcesses && p2 in pm.peerProcesses && p1 != p2 ==> pm.peerProcesses[p1] != pm.peerProcesses[p2])
+
+//@ func PeerManager.getOrCreate
+//@   requires invPM(pm)
+//@   modifies alloc, pm.peerProcesses[*], liveProc, procPeer, procInst
+//@   ghost procInst := ite(old(p in pm.peerProcesses), old(procInst), upd(old(procInst), result.process, result))
+//@   ensures invPM(pm) && p in pm.peerProcesses && pm.peerProcesses[p] == result && result != nil
+//@   ensures old(p in pm.peerProcesses) ==> result == old(pm.peerProcesses[p]) && liveProc == old(liveProc) && result.refcnt == old(result.refcnt)
+//@   ensures !old(p in pm.peerProcesses) ==> fresh(result) && result.refcnt == 0
+//@   ensures forall k peer.ID :: k != p ==> ((k in pm.peerProcesses) <==> old(k in pm.peerProcesses)) && pm.peerProcesses[k] == old(pm.peerProcesses[k])
+
+//@ func PeerManager.Connected
+//@   requires invPM(pm)
+//@   modifies alloc, pm.peerProcesses[*], liveProc, procPeer, procInst, peerProcessInstance.refcnt
+//@   ensures invPM(pm) && p in pm.peerProcesses
+//@   ensures pm.peerProcesses[p].refcnt == ite(old(p in pm.peerProcesses), old(pm.peerProcesses[p].refcnt), 0) + 1
+
+//@ -- no queue outlives the last disconnect of its peer
+//@ func PeerManager.Disconnected
+//@   requires invPM(pm)
+//@   modifies pm.peerProcesses[*], liveProc, pm.peerProcesses[p].refcnt
+//@   ensures invPM(pm)
+//@   ensures old(p in pm.peerProcesses) && old(pm.peerProcesses[p].refcnt) <= 1 ==>
+//@              !(p in pm.peerProcesses) && !liveProc[old(pm.peerProcesses[p].process)] && (forall q ref :: liveProc[q] ==> procPeer[q] != p)
+//@   ensures old(p in pm.peerProcesses) && old(pm.peerProcesses[p].refcnt) > 1 ==>
+//@              p in pm.peerProcesses && pm.peerProcesses[p].refcnt == old(pm.peerProcesses[p].refcnt) - 1 && liveProc == old(liveProc)
+//@   ensures forall k peer.ID :: k != p ==> ((k in pm.peerProcesses) <==> old(k in pm.peerProcesses)) && pm.peerProcesses[k] == old(pm.peerProcesses[k])
+
+//@ func PeerManager.GetProcess
+//@   requires invPM(pm)
+//@   modifies alloc, pm.peerProcesses[*], liveProc, procPeer, procInst
+//@   ensures invPM(pm) && p in pm.peerProcesses && result == pm.peerProcesses[p].process
+
+//@ -- the callback a stopped process invokes: it may only remove the entry that belongs to that process
+//@ func PeerManager.onQueueShutdown
+//@   -- (assumption about the caller, the stopped process: its callback is the closure created with it, bound to the instance it was
+//@   --  created with, and that instance still holds it -- the field is assigned once)
+//@   requires invPM(pm) && !liveProc[cbCaller] && procPeer[cbCaller] == p && instance == procInst[cbCaller] && (instance != nil ==> instance.process == cbCaller)
+//@   modifies pm.peerProcesses[*]
+//@   ensures invPM(pm)
+//@   ensures forall k peer.ID :: k != p ==> ((k in pm.peerProcesses) <==> old(k in pm.peerProcesses)) && pm.peerProcesses[k] == old(pm.peerProcesses[k])
+//@   -- a successor's entry survives the predecessor's late callback
+//@   ensures old(p in pm.peerProcesses) && old(pm.peerProcesses[p]) != instance ==> p in pm.peerProcesses && pm.peerProcesses[p] == old(pm.peerProcesses[p])
+
+//@ func New
+//@   requires createPeerQueue != nil && (forall q ref :: !liveProc[q])
+//@   modifies alloc
+//@   ensures result != nil && invPM(result) && (forall p peer.ID :: !(p in result.peerProcesses))
